@@ -7,6 +7,8 @@ prints the implementation's.
 import A10Verif.Model.Basic
 import A10Verif.Model.Addr
 import A10Verif.Model.Life
+import A10Verif.Model.Bufs
+import A10Verif.Model.Composite
 import A10Verif.Model.ReadBuf
 import A10Verif.Model.Config
 import A10Verif.Model.Inotify
@@ -15,6 +17,7 @@ open A10
 
 structure DriverState where
   life : Life.Sys := {}
+  bufs : Bufs.St := Bufs.init
   readbuf : ReadBuf.St := ReadBuf.init
   inotify : Inotify.St := Inotify.init
 
@@ -24,6 +27,8 @@ def dispatch (st : DriverState) (toks : List String) : DriverState × List Strin
   | "readbuf" :: _ => let (s, o) := ReadBuf.stepLine st.readbuf toks; ({ st with readbuf := s }, o)
   | "config" :: _ => (st, Config.stepLine toks)
   | "inotify" :: _ => let (s, o) := Inotify.stepLine st.inotify toks; ({ st with inotify := s }, o)
+  | "bufs" :: _ => let (s, o) := Bufs.stepLine st.bufs toks; ({ st with bufs := s }, o)
+  | "composite" :: _ => (st, Composite.stepLine toks)
   | "life" :: _ => let (s, o) := Life.stepLine st.life toks; ({ st with life := s }, o)
   | _ => (st, ["bad-op"])
 
